@@ -138,7 +138,12 @@ def step (cs : CaseSt) (op obs : String) : CaseSt × R :=
       (if g "stopret" == 1 then [] else ["C18.stop_terminates"]) ++
       (if g "wgreleased" == 1 then [] else ["C18.waitgroup_released"]) ++
       (if getF ofs "portsfree" == some (showL sorted) then [] else ["C18.ports_free"]) ++
-      (if !ample || g "stoperr" == 0 then [] else ["C18.stop_error_matches_contract"])
+      (if !ample || g "stoperr" == 0 then [] else ["C18.stop_error_matches_contract"]) ++
+      -- in-flight gRPC calls (model-free): with an ample context Stop waits for them and they complete; with an expired
+      -- one Stop cuts them off by itself and returns
+      (if !(ls.contains "grpc" && ready) || (getNat ofs "grpcinflight").getD k == k then [] else ["C18.harness_inflight"]) ++
+      (if !ample || (getNat ofs "grpcdone").getD 0 == (getNat ofs "grpcinflight").getD 0 then [] else ["C18.waits_for_inflight"]) ++
+      (if (getNat ofs "stopprompt").getD 1 == 1 then [] else ["C18.stop_terminates"])
     let m := s!"lts={if ltsOK then "ok" else "MISMATCH"} startret=1 stopret=1 stoperr={if ample then "0" else "any"} wgreleased=1 portsfree={showL sorted} finals={finals.length}"
     ({ cs with text := op, feats := 1 },
      { model := m, mon := mon ++ (if ltsOK then [] else ["C18.model_prediction"]), branch := s!"scenario.n{ls.length}.k{started}.{if ample then "ample" else "expired"}.{if ready then "ready" else "immediate"}" })
